@@ -30,11 +30,12 @@ type forgeState struct {
 	enveloped   bool
 	rawOverride string     // enveloped message moved to the Redirect binding
 	formOverride url.Values // redirect-signed message moved to the POST binding
+	bodyOverride []byte     // signed query kept, but sent as POST whose body repeats the parameters with evil values
 }
 
 var forgeRedirectOps = []string{"sig-flip-first", "sig-flip-mid", "sig-flip-last", "sig-truncate", "sig-empty", "sigalg-removed",
 	"sigalg-swap", "sigalg-dsa", "sigalg-unknown", "relay-changed", "relay-removed", "request-edited",
-	"dup-request-signed-first", "dup-request-evil-first", "dup-relay-signed-first", "dup-relay-evil-first", "to-post", "to-post-tampered"}
+	"dup-request-signed-first", "dup-request-evil-first", "dup-relay-signed-first", "dup-relay-evil-first", "to-post", "to-post-tampered", "post-body-overrides-request", "post-body-overrides-relay"}
 
 var forgeEnvelopedOps = []string{"sv-flip", "dv-flip", "attr-edit", "issuer-edit", "child-added", "issuer-dup-honest-evil",
 	"issuer-dup-evil-honest", "sig-stripped", "sv-emptied", "signedinfo-removed", "xsw-wrap-original", "xsw-sig-on-outer",
@@ -140,6 +141,12 @@ func forgeRedirect(fs *forgeState) {
 		ps = append(ps, verify.RawParam{Name: "RelayState", RawVal: "evil-relay"})
 	case "dup-relay-evil-first":
 		ps = append([]verify.RawParam{{Name: "RelayState", RawVal: "evil-relay"}}, ps...)
+	case "post-body-overrides-request":
+		// the honest signed query stays untouched; a POST body carries a different SAMLRequest (body values take
+		// precedence in net/http's FormValue)
+		fs.bodyOverride = []byte("SAMLRequest=" + evilReq)
+	case "post-body-overrides-relay":
+		fs.bodyOverride = []byte("RelayState=evil-relay")
 	case "to-post", "to-post-tampered":
 		f := url.Values{}
 		for _, p := range ps {
